@@ -803,8 +803,7 @@ impl Database {
                 key::encode_float(*r, buf);
             }
             OwnedValue::Decimal(digits, scale) => {
-                let divisor = 10i128.pow(*scale as u32);
-                let float_val = *digits as f64 / divisor as f64;
+                let float_val = *digits as f64 / 10f64.powi(*scale as i32);
                 key::encode_float(float_val, buf);
             }
             OwnedValue::Enum(type_id, ordinal) => {
